@@ -558,7 +558,11 @@ func (g *gctx) genFile(fi int) *JFile {
 				ann = fmt.Sprintf("@RequestMapping(method = RequestMethod.%s, value = %q)", verb, path)
 			}
 			if !strings.HasPrefix(ann, "@RequestMapping") && path != "" {
-				ann += fmt.Sprintf("(%q)", path)
+				if t.Bool(1, 4) {
+					ann += fmt.Sprintf("(value = %q)", path) // the value= form of the verb-specific annotations
+				} else {
+					ann += fmt.Sprintf("(%q)", path)
+				}
 			}
 			m.Annotations = append(m.Annotations, ann)
 			m.Modifiers = "public"
